@@ -125,6 +125,7 @@ type GuardDecl struct {
 	Type, Field string
 	Mutex       string // "" for immutable
 	Once        string // for package variables
+	Exclusive   bool   // "exclusive T.f by mu": reads, too, need the exclusive hold (a resource used for a whole call)
 	Props       []string
 	File        string
 	Line        int
@@ -615,7 +616,7 @@ var clauseKW = map[string]bool{
 	"requires": true, "ensures": true, "assigns": true, "loop": true, "safety": true,
 	"props": true, "trusted": true, "inline": true, "pure": true, "maypanic": true, "nobody": true,
 	"extern": true, "opaque": true, "uses": true, "allocbound": true, "forbids": true, "decreases": true, "invariant": true, "defines": true, "assumes": true, "proves": true, "wraparound": true, "reveals": true, "trustedframe": true,
-	"guarded": true, "immutable": true, "implements": true, "onceguarded": true,
+	"guarded": true, "immutable": true, "implements": true, "onceguarded": true, "exclusive": true,
 }
 
 type rawClause struct {
@@ -689,7 +690,7 @@ func ParseContractFile(path string) (*ContractFile, error) {
 			j := strings.IndexByte(f[1], '.')
 			cf.Ghosts = append(cf.Ghosts, GhostField{f[1][:j], f[1][j+1:], f[2]})
 			cur = nil
-		case "guarded", "immutable", "onceguarded":
+		case "guarded", "immutable", "onceguarded", "exclusive":
 			// guarded T.f, T.g by mu for C20 | immutable T.f, T.g for C20 | onceguarded v, w by once for C20
 			text := rc.text
 			var props []string
@@ -716,6 +717,7 @@ func ParseContractFile(path string) (*ContractFile, error) {
 						return nil, fail(fmt.Errorf("expected Type.field, got %q", it))
 					}
 					gd.Type, gd.Field, gd.Mutex = it[:j], it[j+1:], by
+					gd.Exclusive = rc.kw == "exclusive"
 				}
 				cf.Guards = append(cf.Guards, gd)
 			}
